@@ -1,6 +1,7 @@
 import Mp4ff.Driver.C01
 import Mp4ff.Driver.C04
 import Mp4ff.Driver.C05
+import Mp4ff.Driver.C06b
 import Mp4ff.Driver.C07
 import Mp4ff.Driver.C08
 import Mp4ff.Driver.C09
@@ -17,7 +18,7 @@ import Mp4ff.Driver.C19
 open Mp4ff.Driver
 
 def dispatchers : List (String → List String → Option String) :=
-  [C01.dispatch, C04.dispatch, C05.dispatch, C07.dispatch, C08.dispatch, C09.dispatch, C10.dispatch, C11.dispatch, C12.dispatch, C13.dispatch, C14.dispatch, C15.dispatch, C17.dispatch, C18.dispatch, C19.dispatch]
+  [C01.dispatch, C04.dispatch, C05.dispatch, C06b.dispatch, C07.dispatch, C08.dispatch, C09.dispatch, C10.dispatch, C11.dispatch, C12.dispatch, C13.dispatch, C14.dispatch, C15.dispatch, C17.dispatch, C18.dispatch, C19.dispatch]
 
 def respond (line : String) : String :=
   match splitWs line with
